@@ -838,6 +838,8 @@ pub struct GenProfile {
     pub exceptions: usize,
     pub services: usize,
     pub defaults: bool,
+    /// how many distinct struct / exception definitions services may name directly
+    pub arg_pool: usize,
     pub annotations: bool,
     pub recursion: bool,
 }
@@ -845,9 +847,12 @@ pub struct GenProfile {
 impl GenProfile {
     pub fn named(name: &str) -> GenProfile {
         match name {
-            "defaults" => GenProfile { files: 2, structs: 10, unions: 1, enums: 2, typedefs: 3, exceptions: 1, services: 0, defaults: true, annotations: false, recursion: false },
-            "small" => GenProfile { files: 1, structs: 3, unions: 1, enums: 1, typedefs: 1, exceptions: 1, services: 1, defaults: true, annotations: false, recursion: true },
-            _ => GenProfile { files: 3, structs: 8, unions: 2, enums: 2, typedefs: 3, exceptions: 2, services: 1, defaults: true, annotations: true, recursion: true },
+            "defaults" => GenProfile { files: 2, structs: 10, unions: 1, enums: 2, typedefs: 3, exceptions: 1, services: 0, defaults: true, arg_pool: 2, annotations: false, recursion: false },
+            "small" => GenProfile { files: 1, structs: 3, unions: 1, enums: 1, typedefs: 1, exceptions: 1, services: 1, defaults: true, arg_pool: 2, annotations: false, recursion: true },
+            // many definitions, several services that reach only part of them (C17: the
+            // builder's default ignore_unused mode walks the used items from the services)
+            "sparse" => GenProfile { files: 3, structs: 60, unions: 6, enums: 8, typedefs: 8, exceptions: 4, services: 6, defaults: true, arg_pool: 24, annotations: false, recursion: true },
+            _ => GenProfile { files: 3, structs: 8, unions: 2, enums: 2, typedefs: 3, exceptions: 2, services: 1, defaults: true, arg_pool: 2, annotations: true, recursion: true },
         }
     }
 }
@@ -1264,6 +1269,69 @@ pub fn generate(seed: u64, profile: &GenProfile) -> Schema {
         g.s.defs.push(Def { file, name: format!("U{}", counters.1), kind: Kind::Union, fields: ufs, annots: vec![] });
         counters.1 += 1;
     }
+    // directed, when defaults are generated: a struct literal default that names
+    // inner fields whose IDL spelling is not the Rust identifier, for an inner
+    // struct with and without its own defaults, in every requiredness
+    if profile.defaults {
+        let file = 0usize;
+        let inner = g.s.defs.len();
+        let fs = vec![
+            Field { id: 1, name: "retryCount".into(), req: Req::Default, ty: Ty::I32, default: None, annots: vec![] },
+            Field { id: 2, name: "UserName".into(), req: Req::Optional, ty: Ty::Str, default: None, annots: vec![] },
+            Field { id: 3, name: "max_idle_MS".into(), req: Req::Required, ty: Ty::I64, default: None, annots: vec![] },
+            Field { id: 4, name: "plain".into(), req: Req::Default, ty: Ty::Double, default: Some(Lit::Dbl("1.5".into())), annots: vec![] },
+            Field { id: 5, name: "tagList".into(), req: Req::Default, ty: Ty::List(Box::new(Ty::Str)), default: None, annots: vec![] },
+        ];
+        g.s.defs.push(Def { file, name: format!("S{}", counters.0), kind: Kind::Struct, fields: fs, annots: vec![] });
+        counters.0 += 1;
+        let lit = |n: i64| {
+            Lit::Struct(vec![
+                ("retryCount".to_string(), Lit::Int(n)),
+                ("UserName".to_string(), Lit::Str("bob".into())),
+                ("max_idle_MS".to_string(), Lit::Int(7000 + n)),
+                ("plain".to_string(), Lit::Dbl("2.25".into())),
+                ("tagList".to_string(), Lit::List(vec![Lit::Str("a".into()), Lit::Str("b".into())])),
+            ])
+        };
+        let fs = vec![
+            Field { id: 1, name: "primary".into(), req: Req::Default, ty: Ty::Ref(inner), default: Some(lit(3)), annots: vec![] },
+            Field { id: 2, name: "fallBack".into(), req: Req::Optional, ty: Ty::Ref(inner), default: Some(lit(4)), annots: vec![] },
+            Field { id: 3, name: "third".into(), req: Req::Required, ty: Ty::Ref(inner), default: Some(lit(5)), annots: vec![] },
+            Field { id: 4, name: "many".into(), req: Req::Default, ty: Ty::List(Box::new(Ty::Ref(inner))), default: Some(Lit::List(vec![lit(6), lit(7)])), annots: vec![] },
+        ];
+        g.s.defs.push(Def { file, name: format!("S{}", counters.0), kind: Kind::Struct, fields: fs, annots: vec![] });
+        counters.0 += 1;
+        // constants and literals as defaults of fields whose type is a typedef (chain)
+        let ci = (0..g.s.consts.len()).find(|c| g.s.consts[*c].ty == Ty::I32 && g.s.consts[*c].file == file);
+        let cs = (0..g.s.consts.len()).find(|c| g.s.consts[*c].ty == Ty::Str && g.s.consts[*c].file == file);
+        let mut mk_td = |g: &mut G, t: Ty, levels: usize| -> usize {
+            let mut cur = t;
+            let mut last = 0;
+            for _ in 0..levels {
+                last = g.s.defs.len();
+                g.s.defs.push(Def { file, name: format!("T{}", counters.3), kind: Kind::Typedef(cur.clone()), fields: vec![], annots: vec![] });
+                counters.3 += 1;
+                cur = Ty::Ref(last);
+            }
+            last
+        };
+        let ti1 = mk_td(&mut g, Ty::I32, 1);
+        let ti2 = mk_td(&mut g, Ty::I32, 2);
+        let ts1 = mk_td(&mut g, Ty::Str, 1);
+        let tl1 = mk_td(&mut g, Ty::List(Box::new(Ty::I32)), 1);
+        let int_lit = |c: Option<usize>, n: i64| c.map(Lit::Const).unwrap_or(Lit::Int(n));
+        let str_lit = |c: Option<usize>, t: &str| c.map(Lit::Const).unwrap_or(Lit::Str(t.to_string()));
+        let fs = vec![
+            Field { id: 1, name: "f1".into(), req: Req::Default, ty: Ty::Ref(ti1), default: Some(int_lit(ci, 7)), annots: vec![] },
+            Field { id: 2, name: "f2".into(), req: Req::Optional, ty: Ty::Ref(ti2), default: Some(int_lit(ci, 8)), annots: vec![] },
+            Field { id: 3, name: "f3".into(), req: Req::Required, ty: Ty::Ref(ti2), default: Some(Lit::Int(-9)), annots: vec![] },
+            Field { id: 4, name: "f4".into(), req: Req::Default, ty: Ty::Ref(ts1), default: Some(str_lit(cs, "x y")), annots: vec![] },
+            Field { id: 5, name: "f5".into(), req: Req::Optional, ty: Ty::Ref(ts1), default: Some(Lit::Str("lit".into())), annots: vec![] },
+            Field { id: 6, name: "f6".into(), req: Req::Default, ty: Ty::Ref(tl1), default: Some(Lit::List(vec![Lit::Int(1), int_lit(ci, 2)])), annots: vec![] },
+        ];
+        g.s.defs.push(Def { file, name: format!("S{}", counters.0), kind: Kind::Struct, fields: fs, annots: vec![] });
+        counters.0 += 1;
+    }
     // services in the entry file. Struct / exception types named directly as an
     // argument, return or throws type get a dedicated decoder variant from
     // pilota-build (see known finding "arg-type decode takes the rest of the
@@ -1272,10 +1340,14 @@ pub fn generate(seed: u64, profile: &GenProfile) -> Schema {
     let mut arg_pool: Vec<usize> = vec![];
     let mut exc_pool: Option<usize> = None;
     fn svc_ty(g: &mut G, pool: &mut Vec<usize>) -> Ty {
+        let cap = g.p.arg_pool;
         let t = g.any_ty(0, 2, true);
         if let Ty::Ref(d) = t {
             if matches!(g.s.defs[d].kind, Kind::Struct | Kind::Exception) {
-                if !pool.contains(&d) && pool.len() < 2 {
+                if pool.contains(&d) {
+                    return Ty::Ref(d);
+                }
+                if pool.len() < cap {
                     pool.push(d);
                     return Ty::Ref(d);
                 }
@@ -1286,10 +1358,11 @@ pub fn generate(seed: u64, profile: &GenProfile) -> Schema {
         t
     }
     for si in 0..profile.services {
-        let nm = 1 + g.rng.usize_below(5);
+        // every service has a method that can throw (the first) and a oneway one (the second)
+        let nm = 2 + g.rng.usize_below(4);
         let mut methods = vec![];
         for mi in 0..nm {
-            let oneway = g.rng.chance(1, 6);
+            let oneway = mi == 1 || (mi > 1 && g.rng.chance(1, 6));
             let ret = if oneway || g.rng.chance(1, 4) { None } else { Some(svc_ty(&mut g, &mut arg_pool)) };
             let na = g.rng.usize_below(4);
             let mut args = vec![];
